@@ -182,7 +182,9 @@ impl Parsable for RawProperty {
                     (
                         0,
                         {
-                            let size = parser.read_usized(array_len_size.unwrap())?;
+                            let size = parser.read_usized(array_len_size.ok_or_else(|| -> Error {
+                                format_error!("Array with a default value must have a size", parser)
+                            })?)?;
                             let fixed_data = BaseArray::parse(fixed_array_len, parser)?;
                             let key_id =
                                 if key_size != 0 {
